@@ -53,6 +53,16 @@ Proof.
   - unfold good_bytes. cbn [r_tobytes]. rewrite H. rewrite (le_pack_whole dt bw xs H (whole_of dt bw H E8)). reflexivity.
 Qed.
 
+Lemma torch_conj_good dt shape bw storage :
+  bitwidth dt = Some bw -> 8 <= bw ->
+  let xs := map (fun s => N.lxor s (2 ^ (bw - 1))) storage in
+  good_numpy dt xs (RTorchConj dt shape storage) /\ good_bytes dt xs (RTorchConj dt shape storage).
+Proof.
+  intros H Hb xs. assert (E8 : (bw <? 8) = false) by (apply N.ltb_ge; exact Hb). split.
+  - exists xs. split; [cbn [r_numpy]; rewrite H; reflexivity | apply (elem_whole dt bw xs H E8)].
+  - unfold good_bytes. cbn [r_tobytes]. rewrite H. rewrite (le_pack_whole dt bw xs H (whole_of dt bw H E8)). reflexivity.
+Qed.
+
 Lemma packed_good dt shape bw xs :
   bitwidth dt = Some bw -> bw < 8 -> in_range bw xs -> length xs = nsize shape ->
   good_numpy dt xs (RPacked dt shape (le_pack dt xs)) /\ good_bytes dt xs (RPacked dt shape (le_pack dt xs)).
